@@ -189,6 +189,40 @@ func (e *Eng) execStmt(st *State, s ast.Stmt) *State {
 		st.counters["send"] = fmt.Sprintf("(+ %s 1)", counterOf(st, "send"))
 		e.gap("channel send modelled as a ghost event only")
 		return st
+	case *ast.SelectStmt:
+		// select: nondeterministic choice among the communication clauses (blocking and fairness are not modelled)
+		var outs []*State
+		nbreak := len(e.exits)
+		for _, c := range s.Body.List {
+			cc := c.(*ast.CommClause)
+			choice := e.freshVal("select", types.Typ[types.Bool])
+			b := e.branch(st, choice.T)
+			if cc.Comm != nil {
+				switch comm := cc.Comm.(type) {
+				case *ast.SendStmt:
+					b = e.execStmt(b, comm)
+				case *ast.ExprStmt:
+					e.evalRecv(b, comm.X)
+				case *ast.AssignStmt:
+					for _, l := range comm.Lhs {
+						if id, ok := l.(*ast.Ident); ok && id.Name != "_" {
+							if obj := e.info.ObjectOf(id); obj != nil {
+								b.vars[obj] = e.freshVal("recv."+id.Name, obj.Type())
+							}
+						}
+					}
+					if len(comm.Rhs) == 1 {
+						e.evalRecv(b, comm.Rhs[0])
+					}
+				}
+			}
+			if b != nil {
+				outs = append(outs, e.execBlock(b, cc.Body))
+			}
+		}
+		e.gap("select: modelled as a nondeterministic choice")
+		outs = append(outs, e.takeExits(nbreak, ExitBreak, "")...)
+		return e.merge(outs)
 	case *ast.EmptyStmt:
 		return st
 	case *ast.LabeledStmt:
@@ -1051,4 +1085,13 @@ func (e *Eng) execGo(st *State, s *ast.GoStmt) *State {
 	st.counters["spawn"] = fmt.Sprintf("(+ %s 1)", counterOf(st, "spawn"))
 	e.havocHeap(st)
 	return st
+}
+
+// evalRecv evaluates the channel operand of a receive expression (its calls are real calls, e.g. ctx.Done()).
+func (e *Eng) evalRecv(st *State, x ast.Expr) {
+	if u, ok := ast.Unparen(x).(*ast.UnaryExpr); ok && u.Op == token.ARROW {
+		e.eval(st, u.X)
+		return
+	}
+	e.eval(st, x)
 }
